@@ -39,7 +39,7 @@ func (s *{{ .VarName }}) {{ .RecvName }}() ({{ .RecvTypeRef }}, error) {
 		}
 	{{- end }}
 	{{- if .Payload.Init }}
-		return {{ .Payload.Init.Name }}({{ if .RecvTypeIsPointer }}body{{ else }}msg{{ end }}), nil
+		return {{ .Payload.Init.Name }}({{ if .RecvTypeIsPointer }}body{{ else }}{{ range .Payload.Init.ServerArgs }}{{ if eq .Ref "&body" }}msg{{ else }}*msg{{ end }}{{ end }}{{ end }}), nil
 	{{- else }}
 		return {{ if .RecvTypeIsPointer }}body{{ else }}*msg{{ end }}, nil
 	{{- end }}
